@@ -79,6 +79,16 @@ DIRECTIONS = {
         "of the async layer: awaiting something under a lock that the same task takes again, create_task without keeping a "
         "reference, cancellation arriving inside a critical section, a callback that is itself calling send() / close() / connect() "
         "on the client (re-entrancy). Avoid what the earlier notes below already did."),
+    10: ("This round, work from the STATEMENT: split it into its individual clauses (every 'and', every quantifier, every exception it "
+         "grants), look at the nine earlier changes listed below, and pick the clause - or the part of the quantified input space - that "
+         "they have exercised LEAST. Then break exactly that. Assume that whoever checks this property already runs a strong randomised "
+         "test of it (random valid and boundary inputs, random histories and interleavings, faults at every step, several objects per "
+         "process, odd configurations, moving clocks): your change must survive such a test unless it deliberately constructs the "
+         "triggering situation - so make the trigger a precise conjunction (three conditions that are each common but rarely coincide), "
+         "a value that random generation practically never produces (one specific 29-bit identifier, one specific 64-bit NAME, an exact "
+         "string, an exact length, an exact count such as the 256th or 65536th occurrence), or an order of events that a generator "
+         "biased towards 'typical' sessions does not emit. It must still be something a real user could meet. Say in your notes which "
+         "clause you chose and why you think it was the least exercised. Avoid what the earlier notes below already did."),
 }
 
 
